@@ -71,6 +71,8 @@ def run_program(prog, prefix=(), kinds=("P", "T", "K"), kill_code=-9, track_stat
     gc.disable()
     w = W.build_world(S, cpu_count=pool.get("cpu_count", 2), psutil=pool.get("psutil", True))
     S.world = w
+    if pool.get("parent_depth"):
+        w.pe._CURRENT_DEPTH = pool["parent_depth"]
     rec = Record()
     rec.prog = prog
     rec.futures = {}
@@ -195,6 +197,12 @@ def do_op(ctx, op, entry):
             if h["ref"]() is e:
                 h["max_seen"] = e._max_workers
         entry["pids_after"] = e._processes.raw_keys()
+        entry["alive_workers"] = sorted(p.pid for p in S.procs.values()
+                                        if p.label.startswith("worker") and p.alive)
+        entry["unreaped"] = sorted(p.label for p in S.procs.values()
+                                   if p.label.startswith("worker") and not p.alive and not p.reaped)
+        entry["alive_managers"] = sum(1 for t in S.procs[K.PARENT_PID].threads
+                                      if t.name.startswith("manager") and t.state != "done")
         entry["same"] = e is ctx["e"]
         entry["id"] = getattr(e, "executor_id", None)
         entry["n_workers"] = e._processes.raw_len()
